@@ -385,10 +385,16 @@ InvalidateBefore(grant, keys, T) ==
 (* token fan-out loop it is that token event; otherwise the oldest trigger    *)
 (* routed through the cache for this name that has not been attributed to an  *)
 (* earlier note of this subscription (a lower bound of the real one).         *)
+(* triggers of a resource id: access resets that match its name, and - a query resource being a resource of its own, *)
+(* which events on the name do not concern - reaccess events only for the resource without a query                 *)
+TrigsOf(cl, rid) ==
+    SeqToSet(Get(o.ctrig, NameOf(cl, rid), <<>>))
+    \cup (IF QueryOf(cl, rid) = "" THEN SeqToSet(Get(o.ctrig, "event:" \o NameOf(cl, rid), <<>>)) ELSE {})
+
 TrigLine(cl, rid) ==
     IF cl.intok > 0 THEN cl.intok
     ELSE LET cons == Get(cl.trigc, rid, 0)
-             cand == {t \in SeqToSet(Get(o.ctrig, NameOf(cl, rid), <<>>)) : t > cons}
+             cand == {t \in TrigsOf(cl, rid) : t > cons}
          IN IF cand = {} THEN 0 ELSE CHOOSE t \in cand : \A u \in cand : t <= u
 
 H_note0(r) ==
@@ -704,7 +710,7 @@ H_mevt(r) ==
                 h2 == IF r.seq > 0
                       THEN Put(o.handed, r.n, Append(HandedOf(r.n), [seq |-> r.seq, l |-> l, sup |-> (r.ev = "change" /\ r.n \in o.window)]))
                       ELSE o.handed
-                ct2 == IF r.ev = "reaccess" THEN Put(o.ctrig, r.n, Append(Get(o.ctrig, r.n, <<>>), l)) ELSE o.ctrig
+                ct2 == IF r.ev = "reaccess" THEN Put(o.ctrig, "event:" \o r.n, Append(Get(o.ctrig, "event:" \o r.n, <<>>), l)) ELSE o.ctrig
             IN Res([o EXCEPT !.ann = IF r.n \in DOMAIN o.ann THEN Put(o.ann, r.n, a2) ELSE o.ann, !.handed = h2, !.ctrig = ct2], {})
       [] r.ns = "system" /\ r.ev = "reset" ->
             LET hit == {k \in DOMAIN o.ann : o.ann[k].st = "ld" /\ Get(o.keyn, k, "") \in SeqToSet(r.matchres)}
@@ -816,7 +822,7 @@ C06TokViol(c, q) ==
 C06TrigViol(c, q) ==
     LET cl == o.conns[c]
         snap == Get(q.subs, c, <<>>)
-        LastT(rid) == LET ts == Get(o.ctrig, NameOf(cl, rid), <<>>) IN IF ts = <<>> THEN 0 ELSE ts[Len(ts)]
+        LastT(rid) == LET ts == TrigsOf(cl, rid) IN IF ts = {} THEN 0 ELSE CHOOSE t \in ts : \A u \in ts : u <= t
     IN { V("C06", "direct subscription " \o rid \o " of " \o c \o " was not re-checked by an access request sent after the last reaccess event / access reset for it",
             IF KeyOf(cl, rid) \in DOMAIN cl.lastAcc /\ ~cl.lastAcc[KeyOf(cl, rid)].rechk THEN "KF-R" ELSE "")
          : rid \in {x \in DOMAIN snap : snap[x].direct > 0 /\ LastT(x) > 0 /\ Get(cl.lastAcc, KeyOf(cl, x), [l |-> 0]).l < LastT(x)} }
